@@ -245,12 +245,26 @@ def tri_fill_rules(rep, prog, scenarios, mode="C05"):
         except (A.Undecided, A.Panic, S.NotPolynomial) as e:
             raise common.Infra(rule + ": tri_fill could not be interpreted symbolically in scenario %s (%s)" % ((order, left_is_mid0), e))
         main = [(tr, r) for tr, r in paths if len(r[1]) == 2]
+        halves = []
         for tr, (_it, calls_, decisions) in paths:
             if len(calls_) == 2:
                 continue
             if mode == "C05":
                 # fragments that are never produced carry no wrong value: the dropped trapezoid is C04.J3's finding, not this property's
                 rep.inst(rule, "tri_fill, y order %s: a path with %d scan() call(s) exists (when %s); nothing is interpolated on it" % (order, len(calls_), S.fmt_trace(tr)[:120]), config=cfg)
+                continue
+            # a half (or the whole triangle) without a single row of pixel centres: the code may skip it. Rows run from RND(y0) to
+            # RND(y1), RND = the first centre row at or below y, so RND(y0) == RND(y1) on the path means there is nothing to produce
+            top_, mid_, bot_ = (ys[names[order.index(k_)]] for k_ in (0, 1, 2))
+            same = lambda p_, q_: any(((op_ == "Eq" and ans_) or (op_ == "Ne" and not ans_)) and  # noqa: E731
+                                      {a_, b_} == {("symop", "RND", p_, None), ("symop", "RND", q_, None)} for op_, a_, b_, ans_ in tr)
+            if mode == "C04" and len(calls_) == 0 and (same(top_, bot_) or (same(top_, mid_) and same(mid_, bot_))):
+                rep.inst(rule, "tri_fill, y order %s: no scan() call when %s - no row of pixel centres between top and bottom, nothing to produce"
+                         % (order, S.fmt_trace(tr)[:120]), config=cfg)
+                continue
+            if mode == "C04" and len(calls_) == 1 and (same(mid_, bot_) or same(top_, mid_)):
+                # the remaining trapezoid is judged by the same identities as in the two-call case
+                halves.append((_it, [(0 if same(mid_, bot_) else 1, calls_[0])], "one scan() call when " + S.fmt_trace(tr)[:100]))
                 continue
             wit = dropped_triangle_witness(order, decisions + list(tr))
             if wit is None:
@@ -259,54 +273,54 @@ def tri_fill_rules(rep, prog, scenarios, mode="C05"):
             rep.violate(rule, "%s|tri_fill-dropped" % rule.split(".")[1], tb.where(),
                         "tri_fill makes %d scan() call(s) instead of 2 when %s: the triangle %s takes that path although the pixel centre %s lies inside it — %s"
                         % (len(calls_), S.fmt_trace(tr)[:200], wit[0], wit[1], "its fragments are never produced"), config=cfg)
-        if not main:
-            continue
-        it, calls = main[0][1][0], main[0][1][1]
-        pairs, what = [], []
+        if main:
+            halves.insert(0, (main[0][1][0], list(enumerate(main[0][1][1])), "two scan() calls"))
         top = names[order.index(0)]
         mid = names[order.index(1)]
         bot = names[order.index(2)]
-        for ci, c in enumerate(calls):
-            yr, lr, rr = c[0], c[1], c[2]
-            want_y = (ys[top], ys[mid]) if ci == 0 else (ys[mid], ys[bot])
-            pairs += [(A.deref_all(it, yr[3][0]), want_y[0]), (A.deref_all(it, yr[3][1]), want_y[1])]
-            what += ["scan #%d y range starts at %s" % (ci + 1, "top" if ci == 0 else "mid"), "scan #%d y range ends at %s" % (ci + 1, "mid" if ci == 0 else "bot")]
-            for side, e in (("left", lr), ("right", rr)):
-                for endn, v in (("start", A.deref_all(it, e[3][0])), ("end", A.deref_all(it, e[3][1]))):
-                    pos, var = v[1][0], A.deref_all(it, v[1][1])
-                    px, py, pz = S.components(it, pos)
-                    wy = want_y[0] if endn == "start" else want_y[1]
-                    if mode == "C05":
-                        pairs += [(py, wy), (pz, plane("g", px, py)), (var, plane("f", px, py))]
-                        what += ["scan #%d %s edge %s lies on the base y" % (ci + 1, side, endn), "scan #%d %s edge %s depth on the plane" % (ci + 1, side, endn),
-                                 "scan #%d %s edge %s attribute on the plane" % (ci + 1, side, endn)]
-                    else:
-                        pairs += [(py, wy)]
-                        what += ["scan #%d %s edge %s lies on the base y" % (ci + 1, side, endn)]
-                        # corners: apex of the upper trapezoid is the top vertex, of the lower one the bottom vertex; at the shared base the
-                        # middle vertex sits on the side the x comparison chose and the other corner is on the long edge top-bot
-                        is_apex = (ci == 0 and endn == "start") or (ci == 1 and endn == "end")
-                        if is_apex:
-                            pairs.append((px, xs[top] if ci == 0 else xs[bot]))
-                            what.append("scan #%d %s edge %s is the %s vertex" % (ci + 1, side, endn, "top" if ci == 0 else "bottom"))
-                        else:
-                            on_mid_side = (side == "left") == left_is_mid0
-                            long_x = add(xs[top], mul(sub(ys[mid], ys[top]), div(sub(xs[bot], xs[top]), sub(ys[bot], ys[top]))))
-                            pairs.append((px, xs[mid] if on_mid_side else long_x))
-                            what.append("scan #%d %s edge %s is %s" % (ci + 1, side, endn, "the middle vertex" if on_mid_side else "the point of the long edge at the middle vertex's y"))
-        try:
-            res = S.field_identities(pairs)
-        except A.Undecided as e:
-            raise common.Infra(rule + ": identities could not be decided (%s)" % e)
-        bad = [w for w, r in zip(what, res) if not r["equal"]]
-        rep.inst(rule, "tri_fill, y order %s (top %s, mid %s, bot %s), %s: %d identities on the two trapezoids handed to scan(): %s"
-                 % (order, top, mid, bot, "mid vertex on the left" if left_is_mid0 else "mid vertex on the right", len(pairs), "hold" if not bad else "FAIL (%s)" % bad[0]), config=cfg)
-        if bad:
-            rep.violate(rule, "%s|tri_fill" % rule.split(".")[1], tb.where(),
-                        "tri_fill hands scan() a trapezoid whose corners are not where the triangle's geometry puts them (vertex y order %s, %s): %s"
-                        % (order, "mid left" if left_is_mid0 else "mid right", "; ".join(bad[:3])), config=cfg)
-        else:
-            n_ok += 1
+        for it, indexed_calls, label in halves:
+          pairs, what = [], []
+          for ci, c in indexed_calls:
+              yr, lr, rr = c[0], c[1], c[2]
+              want_y = (ys[top], ys[mid]) if ci == 0 else (ys[mid], ys[bot])
+              pairs += [(A.deref_all(it, yr[3][0]), want_y[0]), (A.deref_all(it, yr[3][1]), want_y[1])]
+              what += ["scan #%d y range starts at %s" % (ci + 1, "top" if ci == 0 else "mid"), "scan #%d y range ends at %s" % (ci + 1, "mid" if ci == 0 else "bot")]
+              for side, e in (("left", lr), ("right", rr)):
+                  for endn, v in (("start", A.deref_all(it, e[3][0])), ("end", A.deref_all(it, e[3][1]))):
+                      pos, var = v[1][0], A.deref_all(it, v[1][1])
+                      px, py, pz = S.components(it, pos)
+                      wy = want_y[0] if endn == "start" else want_y[1]
+                      if mode == "C05":
+                          pairs += [(py, wy), (pz, plane("g", px, py)), (var, plane("f", px, py))]
+                          what += ["scan #%d %s edge %s lies on the base y" % (ci + 1, side, endn), "scan #%d %s edge %s depth on the plane" % (ci + 1, side, endn),
+                                   "scan #%d %s edge %s attribute on the plane" % (ci + 1, side, endn)]
+                      else:
+                          pairs += [(py, wy)]
+                          what += ["scan #%d %s edge %s lies on the base y" % (ci + 1, side, endn)]
+                          # corners: apex of the upper trapezoid is the top vertex, of the lower one the bottom vertex; at the shared base the
+                          # middle vertex sits on the side the x comparison chose and the other corner is on the long edge top-bot
+                          is_apex = (ci == 0 and endn == "start") or (ci == 1 and endn == "end")
+                          if is_apex:
+                              pairs.append((px, xs[top] if ci == 0 else xs[bot]))
+                              what.append("scan #%d %s edge %s is the %s vertex" % (ci + 1, side, endn, "top" if ci == 0 else "bottom"))
+                          else:
+                              on_mid_side = (side == "left") == left_is_mid0
+                              long_x = add(xs[top], mul(sub(ys[mid], ys[top]), div(sub(xs[bot], xs[top]), sub(ys[bot], ys[top]))))
+                              pairs.append((px, xs[mid] if on_mid_side else long_x))
+                              what.append("scan #%d %s edge %s is %s" % (ci + 1, side, endn, "the middle vertex" if on_mid_side else "the point of the long edge at the middle vertex's y"))
+          try:
+              res = S.field_identities(pairs)
+          except A.Undecided as e:
+              raise common.Infra(rule + ": identities could not be decided (%s)" % e)
+          bad = [w for w, r in zip(what, res) if not r["equal"]]
+          rep.inst(rule, "tri_fill, y order %s (top %s, mid %s, bot %s), %s, %s: %d identities on the trapezoid(s) handed to scan(): %s"
+                   % (order, top, mid, bot, "mid vertex on the left" if left_is_mid0 else "mid vertex on the right", label, len(pairs), "hold" if not bad else "FAIL (%s)" % bad[0]), config=cfg)
+          if bad:
+              rep.violate(rule, "%s|tri_fill" % rule.split(".")[1], tb.where(),
+                          "tri_fill hands scan() a trapezoid whose corners are not where the triangle's geometry puts them (vertex y order %s, %s): %s"
+                          % (order, "mid left" if left_is_mid0 else "mid right", "; ".join(bad[:3])), config=cfg)
+          else:
+              n_ok += 1
     rep.count("tri_fill_scenarios", len(scenarios))
 
 
